@@ -11,7 +11,7 @@ use crate::dom::*;
 use crate::engine::*;
 use crate::flat::{flat, flat_leaf_count, json_result_leaf_count};
 use crate::model::{evaluate, needs_of, MErr};
-use crate::tol::{compare_flats, CmpOpts, Scales};
+use crate::tol::{compare_flats, CmpOpts};
 use crate::{ensure, fail};
 
 pub struct C02;
@@ -70,7 +70,7 @@ impl Prop for C02 {
             (Ok(_), Err(me)) => fail!("error_parity", "library returns a result where the equations cannot be evaluated: {:?}", me),
             (Err(e), Ok(_)) => fail!("error_parity", "library fails ({}) on inputs the equations evaluate", e),
         };
-        let sc = Scales::from_inputs(&inp.lines, n, &inp.ft, c.area as f64);
+        let sc = inp.scales(c.area);
         let fl = flat(&ep);
         let fm = m.flat();
         let den = (m.b[0] + m.b[1]).abs();
